@@ -5,7 +5,7 @@ import multiprocessing as mp
 
 import hv.symx.core  # noqa: F401
 from hv.props import _scopes as sc
-from hv.props._scopes import GLOBAL, LOG, LOG2, NONLOCAL, SETV
+from hv.props._scopes import BIND, GLOBAL, LOG, LOG2, NONLOCAL, SETV
 
 META = {
     "engine": "symx+pyvc",
@@ -31,6 +31,11 @@ LEVELS = [("let", ("x",)), ("let", ("y",)), ("let", ("x", "y")), ("fn",), ("defn
 PRE = [(), (SETV("x"),), (LOG("x"),)]
 POST = [(LOG("x"),), (LOG("x"), LOG("y")), (SETV("x"), LOG("x"))]
 INNER = [(LOG("x"), LOG("y")), (SETV("x"), LOG("x")), (LOG2("x"), SETV("y"), LOG("y")), (SETV("y"), SETV("x"), LOG("x"), LOG("y"))]
+# "setv to a let-bound name updates that binding" for every way the compiler implements the assignment: a value that needs statements
+# leaves its result in a temporary which is renamed to the target (an if / try / match with statement branches, a def-compiled fn)
+BINDS = ("setv-of-try", "setv-of-if", "setv-of-match", "setv-of-fn", "setv-of-def-fn", "setx", "for")
+POST_B = [(BIND(h, "x"), LOG("x")) for h in BINDS]
+INNER_B = [(BIND(h, "x"), LOG("x"), LOG("y")) for h in BINDS]
 PROGS = []
 
 
@@ -129,17 +134,19 @@ def _shape(body):
 def _w_spine(task):
     """One spine (sequence of level kinds) with its statement options: the programs are generated inside the worker (a
     program list built in the parent would be copied page by page into every forked worker)."""
-    levels, npre, npost, ninner, wraps = task
+    levels, npre, npost, ninner, wraps = task[:5]
+    binds = len(task) > 5 and task[5] == "bind"
     per = {}
     n = 0
     for wrap in wraps:
-        for prog in sc.spine_programs(list(levels), PRE[:npre], POST[:npost], INNER[:ninner], wrap_function=wrap):
+        for prog in sc.spine_programs(list(levels), PRE[:npre], (POST_B if binds else POST)[:npost], (INNER_B if binds else INNER)[:ninner],
+                                      wrap_function=wrap):
             n += 1
             ok, hs, ps, h, p = sc.compare(prog)
             st = per.setdefault(_shape(prog), [0, None])
             st[0] += 1
             if not ok and st[1] is None:
-                st[1] = (hs, ps, h, p)
+                st[1] = (hs, ps, repr(h), repr(p))          # (values may be functions: results cross a process boundary)
     return n, per
 
 
@@ -159,6 +166,9 @@ def run(chk):
             else:
                 opts = (1, 2, 3, (False,))
             tasks.append((levels,) + opts)
+            if d <= 2:
+                # the same spines with assignments whose value needs statements (result temporaries renamed to the target)
+                tasks.append((levels, 1, len(POST_B), len(INNER_B), (False, True), "bind"))
     import gc; gc.collect(); gc.freeze()  # forked workers then touch (copy) far fewer pages
     from hv.core import spawn_pool
     with spawn_pool(chk.jobs) as pool:
@@ -180,7 +190,7 @@ def run(chk):
         if info is not None:
             hs, ps, h, p = info
             det = f"Hy source: {hs}\n  reference Python:\n{ps}  Hy run : {h}\n  ref run: {p}"
-            rp = {"confirmed": True, "hy_source": hs, "reference_python": ps, "observed": repr(h), "expected": repr(p)}
+            rp = {"confirmed": True, "hy_source": hs, "reference_python": ps, "observed": h, "expected": p}
         chk.ob(f"resolve/spine {key or 'flat'}", info is None, "cpython-oracle", "exhaustive_finite", detail=det or f"{n} programs", replay=rp)
     chk.extra["programs"] = nprogs
     chk.fn("hy/scoping.py::ScopeLet.add/access/assign/define/_rename_if_bound", "hy/scoping.py::ScopeFn.__exit__/access/assign",
